@@ -79,11 +79,14 @@ class LinkTap:
         self.window_msgs = {C2S: [], S2C: []}    # types seen inside that window
         self.neg_history = []
         self.keysets = []         # (dir, protection snapshot params)
+        self.written = {C2S: 0, S2C: 0}
+        self.listeners = []       # fn(linktap, event) called per event
 
     # ----- feeding
 
     def on_write(self, pipe, idx, data):
         d = pipe.dir
+        self.written[d] += len(data)
 
         if d == S2C:
             self.s2c_written += len(data)
@@ -120,8 +123,11 @@ class LinkTap:
 
         _, seq, payload, info = it
         t = payload[0]
+        info['end_off'] = self.written[d]
         self.events.append((len(self.events), d, seq, t,
                             payload if self.keep else payload[:64], info))
+        for fn in self.listeners:
+            fn(self, d, seq, t, payload, info)
 
         if self.in_kex[d]:
             self.window_msgs[d].append(t)
